@@ -23,7 +23,7 @@ func registerC12() {
 		},
 		MinNontrivial: 500,
 		Families: []lib.Family{
-			{Name: "sequences", N: func(t string) uint64 { return tierN(t, 12000, 600000) }, Run: c12Case},
+			{Name: "sequences", N: func(t string) uint64 { return tierN(t, 100000, 2000000) }, Run: c12Case},
 		},
 	})
 }
